@@ -114,7 +114,7 @@ def part_lexer(ctx, quick, stats):
         behs = ctx.generate("Gen_Lexer", ctx.cfg("gl%d.cfg" % n, GEN.format(mode="all", n=n, pols=pols, steps=0)), deadlock=False)
         stats["lex_inputs_len%d" % n] = len({tuple(b["s"]) for b in behs})
         stats["lex_traces"] += lex_batch(ctx, "n%d" % n, behs, nsrc, stats, drift=n <= 3)
-    num, steps = (1500, 5) if quick else (20000, 7)
+    num, steps = (1500, 5) if quick else (8000, 7)
     behs = ctx.generate("Gen_Lexer", ctx.cfg("glw.cfg", GEN.format(mode="walk", n=0, pols="TwoPolicies", steps=steps)), deadlock=False,
                         simulate="num=%d" % num, depth=steps + 2, seed=ctx.seed + 7, limit=4 * num)
     stats["lex_walks"] = len(behs)
